@@ -4,6 +4,11 @@ import json, os
 ROOT = os.path.dirname(os.path.dirname(os.path.abspath(__file__)))
 
 CHECKS = {
+ "C19": dict(
+   text="Serialised ATNs extracted from the six generated sources and six .interp files are decoded by an own deserialiser and the Go x JS x Java automata are walked in lock step from every rule and mode start state (state kind, rule, flags, decision number, every transition with label sets compared by content; dangling states must coincide); rule/literal/symbolic/channel/mode names and .tokens numbering are compared across packages and with the names declared in the .g4 files; generated listeners are complete and the hand-written Go listener names existing rules only; grammar-derived sentences are replayed on the generated Go lexer and parser.",
+   note="JS and Java parsers cannot be executed offline: they are bound through automaton and vocabulary identity; token numbering rule of ANTLR (tokens{} first, then non-fragment rules without type()) is assumed.",
+   technique="explicit-state lock-step exploration of the product of the three automata plus replay of grammar-derived sentences on the implementation",
+   design="3/C19"),
  "C08": dict(
    text="All short lexeme strings in 10 grammar contexts through every DSL and module entry point (accepted texts continue through printer and both graph builders), JSON and YAML token strings and JSON value replacements through their entry points, every single and pair of protobuf degradations (nil/empty/dropped/renamed parts) through printer, plain graph and weighted builder: no panic, result xor error, unlexable characters outside comments always rejected; work measured as deterministic instrumented step counts from a cold parser: horizon 5e7 steps and growth exponent <= 2.5 between n and 2n repetitions of every short fragment in every insertion context and for scaled model families.",
    note="Step counts come from build-time instrumentation of repository, antlr runtime, generated parser and yaml.v3; asymptotics judged at n=32/64 only; known finding F11 (form feed runs) suppressed by fragment signature.",
